@@ -194,6 +194,9 @@ func (u *transUnit) goType(e ast.Expr) *gty {
 		if _, ok := u.enumTypes[v.Name]; ok {
 			return &gty{kind: "enum", name: v.Name}
 		}
+		if u.step != nil && u.step.stringTypes[v.Name] {
+			return tyString
+		}
 		if _, ok := u.structs[v.Name]; ok {
 			return &gty{kind: "named", name: v.Name}
 		}
@@ -203,6 +206,20 @@ func (u *transUnit) goType(e ast.Expr) *gty {
 	case *ast.SelectorExpr:
 		if u.ignored[exprString(v)] {
 			return &gty{kind: "ignored", name: exprString(v)}
+		}
+		if u.step != nil && u.step.byValue != nil { // phase 6: opaque types of other packages
+			if _, ok := u.enumTypes[exprString(v)]; ok {
+				return &gty{kind: "enum", name: exprString(v)}
+			}
+			if u.step.opaque[exprString(v)] {
+				return tyAny
+			}
+		}
+	case *ast.Ellipsis:
+		if u.step != nil && u.step.byValue != nil {
+			if el := u.goType(v.Elt); el.kind != "unknown" {
+				return &gty{kind: "slice", elem: el}
+			}
 		}
 	case *ast.InterfaceType:
 		if v.Methods == nil || len(v.Methods.List) == 0 {
@@ -250,6 +267,9 @@ func (u *transUnit) leanType(t *gty) string {
 		}
 		return "Nat"
 	case "error":
+		if u.step != nil && u.step.errorType != "" {
+			return u.step.errorType
+		}
 		return "(Option GoErr)"
 	case "unit":
 		return "Unit"
@@ -260,7 +280,7 @@ func (u *transUnit) leanType(t *gty) string {
 	case "enum":
 		return u.enumTypes[t.name]
 	case "named", "iface":
-		return "(" + t.name + " V)"
+		return "(" + u.leanStructName(t.name) + " V)"
 	case "tuple":
 		var p []string
 		for _, x := range t.tup {
@@ -282,6 +302,9 @@ func (u *transUnit) zero(t *gty) string {
 	case "int":
 		return "0"
 	case "error":
+		if u.step != nil && u.step.errorType != "" {
+			return u.step.errorType + ".nil"
+		}
 		return "none"
 	case "unit":
 		return "()"
@@ -384,7 +407,7 @@ func (u *transUnit) declareStruct(name string, skipFields map[string]bool) {
 	u.structs[name] = fs
 	u.structOrder = append(u.structOrder, name)
 	var sb strings.Builder
-	fmt.Fprintf(&sb, "/-- Go: type %s struct (compose) -/\nstructure %s (V : Type) where\n", name, name)
+	fmt.Fprintf(&sb, "/-- Go: type %s struct (compose) -/\nstructure %s (V : Type) where\n", name, u.leanStructName(name))
 	for _, f := range fs {
 		fmt.Fprintf(&sb, "  %s : %s\n", leanIdent(f.name), u.leanType(f.ty))
 	}
@@ -428,6 +451,7 @@ type fnCtx struct {
 	tmpN    int
 	inShort int      // > 0 while translating the right operand of && / ||
 	next    ast.Stmt // the statement after the one being translated (same block), if any
+	initOf  *ast.IfStmt // phase 6: the if statement whose Init is being translated
 }
 
 type rangedMap struct{ m, key string }
@@ -669,7 +693,8 @@ func (c *fnCtx) expr(e ast.Expr, want *gty) (string, *gty) {
 				c.fail(v.Pos(), "unsupported append")
 				return s, t
 			}
-			a, _ := c.expr(v.Args[1], t.elem)
+			a, at := c.expr(v.Args[1], t.elem)
+			a, _ = c.boxCoerce(a, at, t.elem)
 			return "(" + s + " ++ [" + a + "])", t
 		case "make":
 			t := u.goType(v.Args[0])
@@ -835,6 +860,7 @@ func (c *fnCtx) emitReturn(ind int, rs *ast.ReturnStmt, pos token.Pos) {
 			s, t := c.expr(r, c.results[i])
 			if c.u.step != nil {
 				s, t, _ = c.tabCoerce(s, t, c.results[i])
+				s, t = c.errCoerce(s, t, c.results[i])
 			}
 			if t.kind != c.results[i].kind {
 				c.fail(r.Pos(), "result %d has type %s, want %s", i, t, c.results[i])
@@ -1228,6 +1254,7 @@ func (c *fnCtx) stmt(ind int, s ast.Stmt) {
 		c.push()
 		defer c.pop()
 		if v.Init != nil {
+			c.initOf = v
 			// value mode: `x, ok := v.(T)` with T absent — the condition `ok` is false
 			if as, ok := v.Init.(*ast.AssignStmt); ok && len(as.Rhs) == 1 {
 				if ta, ok := as.Rhs[0].(*ast.TypeAssertExpr); ok && ta.Type != nil && u.absentTypes[exprString(ta.Type)] && len(as.Lhs) == 2 {
@@ -1570,7 +1597,13 @@ func (u *transUnit) transFuncMode(recv, name, leanName string, mayPanic bool) bo
 	var sb strings.Builder
 	fmt.Fprintf(&sb, "/-- Go: func ")
 	if recv != "" {
-		fmt.Fprintf(&sb, "(%s *%s) ", c.recv, recv)
+		star := "*"
+		if fd.Recv != nil && len(fd.Recv.List) == 1 {
+			if _, isPtr := fd.Recv.List[0].Type.(*ast.StarExpr); !isPtr {
+				star = "" // a value receiver (phase 6)
+			}
+		}
+		fmt.Fprintf(&sb, "(%s %s%s) ", c.recv, star, recv)
 	}
 	fmt.Fprintf(&sb, "%s — compose/%s (translated) -/\n", name, file)
 	fuel := ""
